@@ -2,6 +2,7 @@ package verifsrv
 
 import (
 	"fmt"
+	"io"
 	"os"
 	"os/exec"
 	"path/filepath"
@@ -34,11 +35,7 @@ func runJoinKill(bin, serverURL, code, out string, after time.Duration) (killedR
 	if err := cmd.Start(); err != nil {
 		return false, err.Error()
 	}
-	go func() {
-		fmt.Fprintln(stdin, "y")
-		time.Sleep(300 * time.Millisecond)
-		fmt.Fprintln(stdin, "y")
-	}()
+	go answerPrompts(stdin)
 	done := make(chan struct{})
 	go func() { cmd.Wait(); close(done) }()
 	deadline := time.After(40 * time.Second)
@@ -66,6 +63,21 @@ func runJoinKill(bin, serverURL, code, out string, after time.Duration) (killedR
 	return true, lb.String()
 }
 
+// answersAtOnce: both answers ("accept the transfer", "resume existing data") are on the
+// join's standard input from the start, as in scripted use (`printf 'y\ny\n' | thru join ...`);
+// otherwise the second answer follows 300 ms after the first.
+var answersAtOnce bool
+
+func answerPrompts(stdin io.Writer) {
+	if answersAtOnce {
+		io.WriteString(stdin, "y\ny\n")
+		return
+	}
+	fmt.Fprintln(stdin, "y") // accept the offer
+	time.Sleep(300 * time.Millisecond)
+	fmt.Fprintln(stdin, "y")
+}
+
 func TestVerifC04E2E(t *testing.T) {
 	rec := verifkit.NewRecorder("C04", "e2e")
 	defer rec.Flush()
@@ -80,6 +92,11 @@ func TestVerifC04E2E(t *testing.T) {
 		tree.Nodes = append(tree.Nodes, verifnet.Node{Rel: "big.bin", Size: big + rapid.IntRange(0, 5000).Draw(rt, "odd"), Seed: rapid.Uint64().Draw(rt, "seed")})
 		conns := rapid.SampledFrom([]int{0, 1, 2}).Draw(rt, "total_connections")
 		kills := rapid.IntRange(1, 2).Draw(rt, "kills")
+		answersAtOnce = rapid.Bool().Draw(rt, "answers_on_stdin_from_the_start")
+		defer func() { answersAtOnce = false }()
+		if answersAtOnce {
+			rec.Class("both-answers-piped-at-once")
+		}
 		dir := verifkit.ScratchDir(t, "c04e2e")
 		defer os.RemoveAll(dir)
 		root, err := tree.Materialize(filepath.Join(dir, "src"))
